@@ -14,7 +14,7 @@ TECHNIQUE = 'static analysis: call-graph reachability of the roster, must-push /
 CLAUSE = ('each rule checker of the frozen roster is reachable from App::build, is called on every path of the function that hosts it, can '
           'push a diagnostic and never lowers its severity below Error; in App::build every pass that receives the sink is followed by a '
           'has_errored gate before the Ok return; cycle detection starts a traversal from every node, the `&mut` input check looks at every '
-          'input, and the method-conflict check counts every kind of method guard.')
+          'input, and the method-conflict check counts every kind of method guard. RoutePath::parse consumes a matched lookahead before reading on; the docs-cache checksum covers all of src/; in implements_trait the Clone answer for references depends on is_mutable wherever the Copy answer does.')
 TRUSTED = ['the walk inside each checker reaches the offending component (not decided statically)']
 
 A = PX + 'analyses::'
